@@ -178,7 +178,10 @@ _HEAD_SLOW = ["[Song]", "{", "  Resolution = 1", "}"]
 _SYNCS = [["  0 = TS 4", "  0 = B 120000"], ["  0 = TS 4", "  0 = TS 3 3", "  0 = B 120000", "  5 = B 1", "  9 = B 999999999", "  0 = A 0", "  7 = A 12345678"]]
 _EVS = [[], ['  0 = E "section a"'], ['  0 = E "section a"', '  1 = E "section b"', '  2 = E "lyric x"', '  2 = E "lyric y"', '  3 = E "t"', '  4 = E "u"', "  junk"]]
 _TRKS = [[], [("ExpertSingle", [])], [("ExpertSingle", ["  0 = N 7 10", "  0 = N 6 0"]),
-                                      ("HardDrums", ["  0 = N 0 5", "  0 = N 1 0", "  0 = S 2 5", "  3 = N 4 0", "  3 = N 5 0", "  3 = S 2 0", "  4 = E a", "  5 = E b"])]]
+                                      ("HardDrums", ["  0 = N 0 5", "  0 = N 1 0", "  0 = S 2 5", "  3 = N 4 0", "  3 = N 5 0", "  3 = S 2 0", "  4 = E a", "  5 = E b"])],
+         # several tracks of which some have no notes at all (empty / phrases and events only)
+         [("ExpertSingle", ["  0 = N 0 0"]), ("HardDrums", ["  3 = S 2 0", "  4 = E a"])],
+         [("EasyKeyboard", []), ("ExpertSingle", ["  0 = N 0 0", "  9 = N 1 3"]), ("ExpertDoubleBass", ["  9 = N 1 30"]), ("MediumSingle", ["  4 = E a"])]]
 
 
 def render_chart(si: int, ei: int, ti: int) -> bool:
@@ -186,7 +189,7 @@ def render_chart(si: int, ei: int, ti: int) -> bool:
     pre: 0 <= si <= len(_SYNCS) and 0 <= ei < len(_EVS) and 0 <= ti < len(_TRKS)
     post: _
     """
-    si, ei, ti = H.pick([0, 1, 2], si), H.pick([0, 1, 2], ei), H.pick([0, 1, 2], ti)
+    si, ei, ti = H.pick([0, 1, 2], si), H.pick([0, 1, 2], ei), H.pick(list(range(len(_TRKS))), ti)
     with H.untraced():      # concrete on every path; CrossHair's datetime model is not the interpreter's
         return done(_render_chart(si, ei, ti))
 
